@@ -5,6 +5,8 @@ One request per line, one answer line per request. Byte strings are hex (`-` = e
 import Updog.Basic.XXHash
 import Updog.Model.Index
 import Updog.Model.CacheKey
+import Updog.Model.Rows
+import Updog.Model.Server
 import Updog.Spec.Sat
 import Std.Data.HashMap
 open Updog
@@ -93,6 +95,32 @@ where
     | n + 1, rest => do
       let (e, rest) ← parseExprToks rest
       let (es, rest) ← parseN n rest
+      pure (e :: es, rest)
+
+partial def parseWExpr : List String → Option (WExpr × List String)
+  | "U" :: rest => some (.unset, rest)
+  | "E" :: c :: v :: rest => do
+    let c ← fromHex c; let v ← fromHex v
+    pure (.eq c v, rest)
+  | "N" :: "Z" :: rest => some (.not none, rest)
+  | "N" :: rest => do
+    let (e, rest) ← parseWExpr rest
+    pure (.not (some e), rest)
+  | "A" :: n :: rest => do
+    let n ← n.toNat?
+    let (es, rest) ← parseWN n rest
+    pure (.and es, rest)
+  | "O" :: n :: rest => do
+    let n ← n.toNat?
+    let (es, rest) ← parseWN n rest
+    pure (.or es, rest)
+  | _ => none
+where
+  parseWN : Nat → List String → Option (List WExpr × List String)
+    | 0, rest => some ([], rest)
+    | n + 1, rest => do
+      let (e, rest) ← parseWExpr rest
+      let (es, rest) ← parseWN n rest
       pure (e :: es, rest)
 
 /-- `<ngb> <col>* <expr tokens>` -/
@@ -191,6 +219,17 @@ def stepIdx (st : IdxSt) (cmd : String) (args : List String) : IdxSt × String :
     match st.mix with
     | some ix => (st, imageLine ix (Writer.addRows xxhash64 {} st.rows.toList))
     | none => (st, "bad-op")
+  | "rows" =>  -- what database/sql must deliver for this query on this index
+    match st.ix, parseQuery args with
+    | some ix, some q =>
+      match executeFast ix q with
+      | none => (st, "err")
+      | some r =>
+        let rs := newRows r q.groupBy
+        let cell : Cell → String := fun c => match c with | .text b => "t" ++ toHex b | .int n => s!"i{n}"
+        (st, "ok cols=" ++ ",".intercalate (rs.cols.map toHex) ++ " types=" ++ ",".intercalate rs.types ++
+          String.join (rs.rows.map fun r => " r " ++ ",".intercalate (r.map cell)))
+    | _, _ => (st, "bad-op")
   | "key" =>
     match parseExprToks args with
     | some (e, []) => (st, "ok " ++ toHex (be64 (cacheKey xxhash64 e).toNat))
